@@ -224,6 +224,21 @@ def record(job):
                 return e
             mpm.create_or_event = slow_create
     mediator, config, standin = build(job, tmpdir)
+    if job.get("hard_core"):
+        # hard cores: a random initial configuration with two overlapping cores is not an admissible state (the potential asserts it);
+        # the job is then re-run by runs.run_jobs with another seed - decided here, before the first leg, from the positions alone
+        import jellyfysh.setting as _st
+        us = [c.value for r_ in mediator._state_handler.extract_global_state() for c in ([r_] if not r_.children else r_.children)]
+        Ls = system_lengths()
+        d2 = (2.0 * float(job["hard_core"])) ** 2
+        for a_ in range(len(us)):
+            for b_ in range(a_ + 1, len(us)):
+                s2 = 0.0
+                for x, y, L_ in zip(us[a_].position, us[b_].position, Ls):
+                    dd = abs(x - y) % L_
+                    s2 += min(dd, L_ - dd) ** 2
+                if s2 <= d2 * (1.0 + 1e-9):
+                    return {"meta": {"ini": job.get("ini"), "seed": seed}, "legs": [], "writes": [], "end": "inadmissible-initial-overlap"}
     if job.get("per_handler_rng"):
         for i, h in enumerate(mediator._activator.get_event_handlers()):
             h.__dict__.setdefault("_verif_idx", i)
